@@ -29,6 +29,7 @@ MAP = {"<": "l", ">": "g", "&": "n", '"': "q", "\\": "b", "*": "s", "_": "u", "`
 LITERALS = [
     "<b>bold</b>", "a<b", "a < b > c", "</td></tr>", "<script>alert(1)</script>", "<!-- x", "x & y", "&amp; &lt;", "&#60;x", 'say "hi"', "it''s", "a\\b", "c:\\dir\\n",
     "two  blanks", "   lead", "*emph* _u_", "[link](http://x)", "`code`", "# head", "a | b | c", "$x^2$", "{!inc!}", "~~s~~", "<img src=x onerror=y>", "100% <done>",
+    "don''t; <b>stop</b>", 'say "hi; <x> there', "a;b ''q'' \"r\" ;c",
     "@note not a note", "[[not_a_link]]", "(a,i0,'<',f8.3)", "a,b;c", "Mixed CASE <B>Text</B>", "UPPER & lower", "tab\there" if False else "a->b", "<= >= /= ==",
 ]
 EXPRS = ["merge(1, 2, ka < kb)", "merge(1, 2, ka<kb)", "merge(4, 8, ka > kb)", "merge(1, 2, ka <= kb .and. kb >= ka)", "merge(2, 3, ka /= kb)", "merge(2, 3, ka == kb)", "max(ka, kb)",
@@ -118,6 +119,19 @@ def build(seed):
             frag, alt = f"{v}*(*)", ("character(len=*)", v)
         L.append(f"!! doc of {v}")
         checks.append({"page": mpage, "fragment": frag, "or": alt, "where": "entity_char_length"})
+    # both character type parameters positional, the kind an integer literal
+    for form in rng.sample(["var", "param", "array"], rng.randint(1, 2)):
+        v = nm("hk")
+        ln = 5000 + rng.randint(1, 900)
+        if form == "var":
+            L.append(f"character({ln}, 1) :: {v}")
+        elif form == "param":
+            L.append(f"character({ln}, 1), parameter :: {v} = 'p'")
+        else:
+            L.append(f"character({ln}, 1), dimension(2) :: {v}")
+        L.append(f"!! doc of {v}")
+        checks.append({"page": mpage, "fragment": f"character({ln}, 1)", "or": (f"len={ln})", v), "where": "positional_len_and_kind"})
+        checks.append({"page": mpage, "fragment": "character(len=1)", "or": ("character(len=1)", v), "where": "positional_len_and_kind", "absent_near": v})
     # a derived type with hostile component defaults
     t = nm("ht")
     L += [f"type :: {t}", "!! type doc"]
@@ -140,8 +154,20 @@ def build(seed):
     L.append("interface")
     ib = nm("hi")
     e = rng.choice(EXPRS)
-    L += [f"subroutine {ib}(arr, s)", "!! iface doc", "import :: ka, kb", f"real, intent(in) :: arr({e})", "!! arr doc", f"character(len=*), intent(in), optional :: s", "!! s doc", f"end subroutine {ib}", "end interface"]
+    L += [f"subroutine {ib}(arr, s)", "!! iface doc", "import :: ka, kb", f"real, intent(in) :: arr({e})", "!! arr doc", f"character(len=*), intent(in), optional :: s", "!! s doc", f"end subroutine {ib}"]
     checks.append({"page": f"interface/{ib}.html", "fragment": e, "where": "interface_arg_dimension_expr"})
+    # a function declared by an interface body: its result carries a dimension (as attribute or with the name) and attributes
+    ifn = nm("hj")
+    e2 = rng.choice([x for x in EXPRS if "<" in x or ">" in x])
+    rdecl = rng.choice([f"real, dimension({e2}) :: r", f"real :: r({e2})", f"real, pointer, dimension(:) :: r"])
+    L += [f"function {ifn}(x) result(r)", "!! iface func doc", "import :: ka, kb", "integer, intent(in) :: x", "!! x doc", rdecl, "!! r doc", f"end function {ifn}", "end interface"]
+    if e2 in rdecl:
+        checks.append({"page": f"interface/{ifn}.html", "fragment": e2, "where": "interface_result_dimension_expr"})
+    afn = nm("ha")
+    e3 = rng.choice([x for x in EXPRS if "<" in x or ">" in x])
+    L += ["abstract interface", f"function {afn}(x) result(r)", "!! abstract iface func doc", "import :: ka, kb", "integer, intent(in) :: x", "!! x doc", f"integer, dimension({e3}) :: r", "!! r doc",
+          f"end function {afn}", "end interface"]
+    checks.append({"page": f"interface/{afn}.html", "fragment": e3, "where": "abstract_interface_result_dimension_expr"})
     # a module variable that a dummy argument of a procedure below hides
     shv = nm("hv")
     shl = lit(f"<i>host{sx}</i> & \\ shadowed")
@@ -314,6 +340,12 @@ def case(seed):
                 continue
             nchecks += 1
             frag = c["fragment"]
+            if c.get("absent_near"):
+                # the given type text must not be what is shown for this entity
+                if re.search(re.escape(squeeze(c["or"][0])) + r"[^:]{0,40}::" + re.escape(squeeze(c["absent_near"])) + r"(?!\d)", squeeze(t)):
+                    viol.append({"kf": {"kind": "declaration_text_not_shown_verbatim", "where": c["where"], "has_backslash": False, "has_repeated_blanks": False, "has_doubled_quote": False},
+                                 "w": {"seed": seed, "check": c, "source": lines}})
+                continue
             if c.get("absent"):
                 if frag in t:
                     viol.append({"kf": {"kind": "declaration_of_another_entity_shown", "where": c["where"]}, "w": {"seed": seed, "check": c, "source": lines}})
